@@ -6,6 +6,7 @@
 import RosuModel.Model.Curve
 import RosuModel.Lemmas.Outcome
 import RosuModel.Lemmas.ToyInt
+import RosuModel.Lemmas.ToyRat
 namespace Rosu.C19
 open Rosu Rosu.Curve
 
@@ -191,6 +192,200 @@ theorem interpolate_formula (path : List (Pos P)) (lengths : List F) (i : Nat) (
   rw [getI_of_some _ _ _ hp0, Outcome.ok_bind, getI_of_some _ _ _ hd0, Outcome.ok_bind,
     getI_of_some _ _ _ hd1, Outcome.ok_bind]
   simp [hdeg]
+
+/-! ### law-dependent: the search on sorted lengths, end points and vertices (exact arithmetic) -/
+
+/-- order and field facts used below; hypotheses, not axioms (`posLaws_rat` shows they are satisfiable). -/
+structure PosLaws (P F : Type) [Scalar P] [Scalar F] [Cvt P F] : Prop where
+  lt_irrefl : ∀ a : F, Scalar.lt a a = false
+  lt_asymm : ∀ a b : F, Scalar.lt a b = true → Scalar.lt b a = false
+  one_not_lt_zero : Scalar.lt (1 : F) (0 : F) = false
+  zero_mul : ∀ x : F, (0 : F) * x = 0
+  one_mul : ∀ x : F, (1 : F) * x = x
+  div_self_of_lt : ∀ a b : F, Scalar.lt a b = true → (b - a) / (b - a) = 1
+  down_one : (Cvt.down (1 : F) : P) = 1
+  mul_one : ∀ x : P, x * (1 : P) = x
+  add_sub_cancel : ∀ a b : P, a + (b - a) = b
+
+/-- the cumulative lengths strictly increase (no zero-length segment, no NaN). -/
+def StrictSorted (lengths : List F) : Prop :=
+  ∀ (i j : Nat) (x y : F), i < j → lengths[i]? = some x → lengths[j]? = some y → Scalar.lt x y = true
+
+theorem bsLoop_hit (laws : PosLaws P F) (lengths : List F) (hs : StrictSorted lengths) (t : Nat) (d : F)
+    (ht : lengths[t]? = some d) : ∀ fuel base size, size ≤ fuel → base ≤ t → t < base + size →
+      base + size ≤ lengths.length → bsLoop lengths d fuel base size = t := by
+  intro fuel
+  induction fuel with
+  | zero => intro base size h1 h2 h3 _; omega
+  | succ n ih =>
+    intro base size h1 h2 h3 h4
+    simp only [bsLoop]
+    split
+    · rename_i hsz
+      have hmid : base + size / 2 < lengths.length := by omega
+      have hx : lengths.getD (base + size / 2) 0 = lengths[base + size / 2] := by
+        rw [List.getD_eq_getElem?_getD, List.getElem?_eq_getElem hmid]; rfl
+      have hx' : lengths[base + size / 2]? = some lengths[base + size / 2] := List.getElem?_eq_getElem hmid
+      rw [hx]
+      rcases Nat.lt_or_ge t (base + size / 2) with hlt | hge
+      · -- target left of the probe: Greater, `base` stays
+        have h1' := hs t (base + size / 2) d _ hlt ht hx'
+        have h2' := laws.lt_asymm _ _ h1'
+        have hc : cmpLen lengths[base + size / 2] d = .gt := by simp [cmpLen, h1', h2']
+        simp only [hc, beq_self_eq_true, if_true]
+        exact ih base (size - size / 2) (by omega) h2 (by omega) (by omega)
+      · -- probe at or left of the target: Less or Equal, `base` moves to the probe
+        have hc : (cmpLen lengths[base + size / 2] d == .gt) = false := by
+          rcases Nat.lt_or_ge (base + size / 2) t with hlt | hge'
+          · have h1' := hs (base + size / 2) t _ d hlt hx' ht
+            simp [cmpLen, h1']
+          · have he : base + size / 2 = t := by omega
+            have : lengths[base + size / 2] = d := by
+              have h5 : lengths[base + size / 2]? = some d := by rw [he]; exact ht
+              rw [hx'] at h5; exact Option.some.inj h5
+            simp [cmpLen, this, laws.lt_irrefl]
+        simp only [hc, Bool.false_eq_true, if_false]
+        exact ih (base + size / 2) (size - size / 2) (by omega) hge (by omega) (by omega)
+    · omega
+
+/-- **on strictly increasing lengths the search finds the index of an exact hit.** -/
+theorem idxOfDist_hit (laws : PosLaws P F) (lengths : List F) (hs : StrictSorted lengths) (t : Nat) (d : F)
+    (ht : lengths[t]? = some d) : idxOfDist lengths d = t := by
+  have htl : t < lengths.length := by
+    rcases Nat.lt_or_ge t lengths.length with h | h
+    · exact h
+    · rw [List.getElem?_eq_none h] at ht; cases ht
+  unfold idxOfDist
+  simp only []
+  rw [if_neg (by omega)]
+  rw [bsLoop_hit laws lengths hs t d ht lengths.length 0 lengths.length (Nat.le_refl _) (Nat.zero_le _)
+    (by omega) (by omega)]
+  have hx : lengths.getD t 0 = d := by rw [List.getD_eq_getElem?_getD, ht]; rfl
+  rw [hx]
+  simp [cmpLen, laws.lt_irrefl]
+
+/-- interpolating at the far end of a non-degenerate segment gives that vertex. -/
+theorem interpolate_at_vertex (laws : PosLaws P F) (path : List (Pos P)) (lengths : List F) (t : Nat)
+    (p0 p1 : Pos P) (d0 d1 : F) (ht : t ≠ 0) (hp1 : path[t]? = some p1) (hp0 : path[t - 1]? = some p0)
+    (hd0 : lengths[t - 1]? = some d0) (hd1 : lengths[t]? = some d1) (hlt : Scalar.lt d0 d1 = true)
+    (hdeg : Scalar.le (Scalar.abs (d0 - d1)) (Scalar.eps : F) = false) :
+    interpolateVertices path lengths t d1 = .ok p1 := by
+  rw [interpolate_formula path lengths t d1 p0 p1 d0 d1 ht hp1 hp0 hd0 hd1 hdeg,
+    laws.div_self_of_lt d0 d1 hlt, laws.down_one]
+  congr 1
+  show Pos.add p0 (Pos.smul (Pos.sub p1 p0) 1) = p1
+  simp only [Pos.add, Pos.smul, Pos.sub, laws.mul_one, laws.add_sub_cancel]
+
+/-- **`position_at_vertex`** (exact arithmetic): if the progress maps to the cumulative length of vertex `t`
+exactly, the position is that vertex — on strictly increasing lengths whose consecutive differences exceed
+`EPSILON` (otherwise the code deliberately returns the segment's start). -/
+theorem position_at_vertex (laws : PosLaws P F) (path : List (Pos P)) (lengths : List F)
+    (hs : StrictSorted lengths) (hdeg : ∀ i x y, lengths[i]? = some x → lengths[i + 1]? = some y →
+      Scalar.le (Scalar.abs (x - y)) (Scalar.eps : F) = false)
+    (hlen : path.length ≤ lengths.length) (q : F) (t : Nat) (pt : Pos P) (hpt : path[t]? = some pt)
+    (hq : lengths[t]? = some (progressToDist lengths q)) :
+    positionAt path lengths q = .ok pt := by
+  unfold positionAt
+  simp only []
+  rw [idxOfDist_hit laws lengths hs t _ hq]
+  have htp : t < path.length := by
+    rcases Nat.lt_or_ge t path.length with h | h
+    · exact h
+    · rw [List.getElem?_eq_none h] at hpt; cases hpt
+  cases t with
+  | zero =>
+    cases path with
+    | nil => simp at htp
+    | cons a rest => simp at hpt; subst hpt; rfl
+  | succ k =>
+    have hp0 : path[k]? = some path[k] := List.getElem?_eq_getElem (by omega)
+    have hd0 : lengths[k]? = some lengths[k] := List.getElem?_eq_getElem (by omega)
+    exact interpolate_at_vertex laws path lengths (k + 1) path[k] pt lengths[k] _ (by omega) hpt
+      (by simpa using hp0) (by simpa using hd0) hq (hs k (k + 1) _ _ (by omega) hd0 hq)
+      (hdeg k _ _ hd0 hq)
+
+/-- `progress_to_dist(0) = 0` and `progress_to_dist(1) = dist` in exact arithmetic. -/
+theorem progressToDist_zero_one (laws : PosLaws P F) (lengths : List F) :
+    progressToDist lengths 0 = 0 ∧ progressToDist lengths 1 = dist lengths := by
+  unfold progressToDist Scalar.clamp
+  simp [laws.lt_irrefl, laws.one_not_lt_zero, laws.zero_mul, laws.one_mul]
+
+/-- **`position_at_zero_first`** (exact arithmetic, strictly increasing lengths starting at `0.0`). -/
+theorem position_at_zero_first (laws : PosLaws P F) (p : Pos P) (path : List (Pos P)) (lengths : List F)
+    (hs : StrictSorted ((0 : F) :: lengths)) :
+    positionAt (p :: path) ((0 : F) :: lengths) 0 = .ok p := by
+  apply position_first_of_idx_zero
+  rw [(progressToDist_zero_one laws _).1]
+  exact idxOfDist_hit laws _ hs 0 0 rfl
+
+/-- **`position_at_one_last`** (exact arithmetic): on a curve with as many lengths as path points, strictly
+increasing by more than `EPSILON`, progress 1 is the last path point. -/
+theorem position_at_one_last (laws : PosLaws P F) (path : List (Pos P)) (lengths : List F)
+    (hs : StrictSorted lengths) (hdeg : ∀ i x y, lengths[i]? = some x → lengths[i + 1]? = some y →
+      Scalar.le (Scalar.abs (x - y)) (Scalar.eps : F) = false)
+    (hlen : path.length = lengths.length) (hne : path ≠ []) :
+    positionAt path lengths 1 = .ok (path.getLast hne) := by
+  have hpos : 0 < path.length := List.length_pos_iff.mpr hne
+  apply position_at_vertex laws path lengths hs hdeg (by omega) 1 (path.length - 1)
+  · rw [List.getLast_eq_getElem, List.getElem?_eq_getElem (by omega)]
+  · rw [(progressToDist_zero_one laws _).2]
+    unfold dist
+    rw [List.getLast?_eq_getElem?, hlen]
+    cases h : lengths[lengths.length - 1]? with
+    | none => rw [List.getElem?_eq_none_iff] at h; omega
+    | some x => rfl
+
+/-- the laws are satisfiable: exact rational arithmetic for both scalars. -/
+theorem posLaws_rat : PosLaws Rat Rat where
+  lt_irrefl a := by
+    show decide (a < a) = false
+    simp [Rat.lt_irrefl]
+  lt_asymm a b h := by
+    have h' : a < b := by simpa [Scalar.lt] using h
+    show decide (b < a) = false
+    simp only [decide_eq_false_iff_not]
+    exact Rat.not_lt.mpr (Rat.le_of_lt h')
+  one_not_lt_zero := by decide
+  zero_mul x := Rat.zero_mul x
+  one_mul x := Rat.one_mul x
+  div_self_of_lt a b h := by
+    have h' : a < b := by simpa [Scalar.lt] using h
+    have hne : b - a ≠ 0 := by
+      intro h0
+      have hb : b = a := by
+        have h1 : b - a + a = 0 + a := by rw [h0]
+        rw [Rat.sub_eq_add_neg, Rat.add_assoc, Rat.neg_add_cancel, Rat.add_zero, Rat.zero_add] at h1
+        exact h1
+      rw [hb] at h'
+      exact Rat.lt_irrefl h'
+    show (b - a) / (b - a) = ((1 : Nat) : Rat)
+    rw [Rat.div_def, Rat.mul_inv_cancel _ hne]; rfl
+  down_one := rfl
+  mul_one x := Rat.mul_one x
+  add_sub_cancel a b := by
+    show a + (b - a) = b
+    rw [Rat.sub_eq_add_neg, Rat.add_comm b, ← Rat.add_assoc, Rat.add_neg_cancel, Rat.zero_add]
+
+/-- non-vacuity of the hypotheses: a two-point curve over `Rat`. -/
+example : StrictSorted ([0, 5] : List Rat) := by
+  intro i j x y hij hx hy
+  match i, j, hij with
+  | 0, 1, _ => simp at hx hy; subst hx hy; decide
+  | 0, j + 2, _ => simp at hy
+  | i + 1, j + 2, _ => simp at hy
+  | i + 1, 1, h => omega
+
+/-- the statement that remains unproved: the position never moves farther than the arc length between two
+progress values, under the curve invariant `|path[i] − path[i−1]| ≤ len[i] − len[i−1]`. It needs norm and order
+laws of the plane (triangle inequality); tested by the harness oracle with float slack. -/
+def position_lipschitz_statement (P F : Type) [Scalar P] [Scalar F] [Cvt P F] : Prop :=
+  ∀ (path : List (Pos P)) (lengths : List F) (q r : F) (a b : Pos P),
+    path.length = lengths.length →
+    (∀ i p p' x y, path[i]? = some p → path[i + 1]? = some p' → lengths[i]? = some x → lengths[i + 1]? = some y →
+      Scalar.le (Cvt.up (Pos.distance F p' p)) (y - x) = true) →
+    Scalar.le 0 q = true → Scalar.le q r = true → Scalar.le r 1 = true →
+    positionAt path lengths q = .ok a → positionAt path lengths r = .ok b →
+    Scalar.le (Cvt.up (Pos.distance F b a)) ((r - q) * dist lengths) = true
 
 /-! ### non-vacuity (toy arithmetic) -/
 section NonVacuity
